@@ -107,6 +107,24 @@ func checkC21(h *hx.H, c c21Case) {
 				}
 			}
 		}
+		if contentBound && (s.W > 0 || s.HExpl > 0) {
+			// tables, classes and code never shrink below their content: the automatic size of the
+			// same shape (the same diagram without this shape's explicit size), less its padding, is a lower bound
+			h.Label("explicit_on_content_bound")
+			twin := c
+			twin.Shapes = append([]c21Shape{}, c.Shapes...)
+			twin.Shapes[i].W, twin.Shapes[i].HExpl = 0, 0
+			_, g2 := runLayout(h, layCase{Text: twin.text(), Engine: c.Engine})
+			for _, x := range g2.Objects {
+				if x.AbsID() == fmt.Sprintf("n%d", i) {
+					// (the automatic size includes up to 10 px of padding that an explicit size may take away)
+					// and rows lose their 5 px of padding each: 80 % of the automatic size less 10 px is below any content
+					if o.Width < 0.8*x.Width-10.5 || o.Height < 0.8*x.Height-10.5 {
+						h.FailSoft("shrunk-below-content:"+sh+sfx, "with explicit size %dx%d the shape is %.1fx%.1f, smaller than its automatic size %.1fx%.1f: %s", s.W, s.HExpl, o.Width, o.Height, x.Width, x.Height, desc)
+					}
+				}
+			}
+		}
 		if s.W == 0 && s.HExpl == 0 && o.HasLabel() && o.LabelPosition != nil && !label.FromString(*o.LabelPosition).IsOutside() && !label.FromString(*o.LabelPosition).IsBorder() && !contentBound && o.Icon == nil {
 			h.Label("automatic")
 			st := d2target.DSL_SHAPE_TO_SHAPE_TYPE[sh]
